@@ -1,0 +1,73 @@
+//go:build verif
+
+/*
+ * Verification exports for the timestamp oracle (txn.go): add-only wrappers that let the
+ * external verification harness drive a stand-alone oracle exactly as DB.Open, NewTransaction,
+ * Txn.Commit and Txn.Discard do. Compiled only with `-tags verif`.
+ */
+
+package badger
+
+import "github.com/dgraph-io/badger/v4/y"
+
+// VerifOracle wraps an oracle that is not attached to a DB.
+type VerifOracle struct{ o *oracle }
+
+// VerifOrcTxn is a transaction as far as the oracle looks at it (readTs, doneRead, no reads).
+type VerifOrcTxn struct{ t *Txn }
+
+// VerifNewOracle creates the oracle like newOracle + the tail of Open do for a DB whose
+// maximum stored version is maxVersion (normal mode).
+func VerifNewOracle(maxVersion uint64, detectConflicts bool) *VerifOracle {
+	opt := DefaultOptions("")
+	opt.DetectConflicts = detectConflicts
+	orc := newOracle(opt)
+	orc.nextTxnTs = maxVersion
+	orc.txnMark.Done(orc.nextTxnTs)
+	orc.readMark.Done(orc.nextTxnTs)
+	orc.incrementNextTs()
+	return &VerifOracle{o: orc}
+}
+
+// ReadTs is oracle.readTs (blocks until txnMark has reached the timestamp).
+func (v *VerifOracle) ReadTs() uint64 { return v.o.readTs() }
+
+// NewTxn makes the transaction object NewTransaction would hold after readTs returned.
+func (v *VerifOracle) NewTxn(readTs uint64) *VerifOrcTxn {
+	return &VerifOrcTxn{t: &Txn{readTs: readTs, conflictKeys: map[uint64]struct{}{}}}
+}
+
+// NewCommitTs is oracle.newCommitTs.
+func (v *VerifOracle) NewCommitTs(t *VerifOrcTxn) (uint64, bool) { return v.o.newCommitTs(t.t) }
+
+// DoneCommit is oracle.doneCommit.
+func (v *VerifOracle) DoneCommit(ts uint64) { v.o.doneCommit(ts) }
+
+// DoneRead is oracle.doneRead (what Txn.Discard calls).
+func (v *VerifOracle) DoneRead(t *VerifOrcTxn) { v.o.doneRead(t.t) }
+
+// NextTs is oracle.nextTs.
+func (v *VerifOracle) NextTs() uint64 { return v.o.nextTs() }
+
+// DiscardAtOrBelow is oracle.discardAtOrBelow.
+func (v *VerifOracle) DiscardAtOrBelow() uint64 { return v.o.discardAtOrBelow() }
+
+// TxnMark / ReadMark expose the two watermarks.
+func (v *VerifOracle) TxnMark() *y.WaterMark  { return v.o.txnMark }
+func (v *VerifOracle) ReadMark() *y.WaterMark { return v.o.readMark }
+
+// Stop is oracle.Stop.
+func (v *VerifOracle) Stop() { v.o.Stop() }
+
+// ReadTsLocked is the locked section of oracle.readTs alone (readTs := nextTxnTs-1,
+// readMark.Begin(readTs)); the caller then waits on TxnMark().WaitForMark itself. Used by the
+// controlled schedules when the wait is going to block, so that the harness can tell when the
+// waiter mark has been sent.
+func (v *VerifOracle) ReadTsLocked() uint64 {
+	o := v.o
+	o.Lock()
+	readTs := o.nextTxnTs - 1
+	o.readMark.Begin(readTs)
+	o.Unlock()
+	return readTs
+}
